@@ -1,11 +1,13 @@
 mod c12;
 mod c13;
+mod c13s;
 mod c18;
 mod sw;
 
 fn main() {
     let ctx = vcommon::Ctx::from_args();
-    ctx.watchdog(ctx.pick(900, 7200));
+    // a violation in the storage parts is shrunk with up to 4000 re-runs of a storage scenario
+    ctx.watchdog(ctx.pick(1800, 3 * 3600));
     match ctx.prop.as_str() {
         "C12" => c12::run(&ctx),
         "C13" => c13::run(&ctx),
